@@ -637,7 +637,8 @@ T("t-adopt-inline-assignment", ["C01", "C12"], VM,
 TWINS.append(dict(id="t-cached-deadline-kept-coherent", props=["C01", "C12", "C15"], patch="seeded/C01-b/patch.diff", note="seed C01-b plus the missing refresh of the cached deadline wherever start_time is inherited",
                   edits=[(CX, "                    vm.start_time = self._current_vm.start_time\n", "                    vm.start_time = self._current_vm.start_time\n                    vm.deadline = self._current_vm.deadline\n", 1),
                          (CX, "                    vm.start_time = ctx._current_vm.start_time\n", "                    vm.start_time = ctx._current_vm.start_time\n                    vm.deadline = ctx._current_vm.deadline\n", 1),
-                         (CX, "            vm.start_time = self._current_vm.start_time\n            vm.host_depth = self._current_vm.host_depth\n        else:\n            vm.start_time = time.monotonic()\n", "            vm.start_time = self._current_vm.start_time\n            vm.deadline = self._current_vm.deadline\n            vm.host_depth = self._current_vm.host_depth\n        else:\n            vm._start_clock()\n", 1)]))
+                         (CX, "            vm.start_time = self._current_vm.start_time\n            vm.host_depth = self._current_vm.host_depth\n        else:\n            vm.start_time = time.monotonic()\n", "            vm.start_time = self._current_vm.start_time\n            vm.deadline = self._current_vm.deadline\n            vm.host_depth = self._current_vm.host_depth\n        else:\n            vm._start_clock()\n", 1),
+                         (CX, "        vm.start_time = started\n", "        vm.start_time = started\n        if vm.time_limit is not None:\n            vm.deadline = started + vm.time_limit\n", 1)]))
 
 # ------------------------------------------------------------------ host-stack budget (fix 094d6a2)
 M("c02-callback-not-counted", ["C02"], VM,
@@ -977,3 +978,43 @@ M("c17-lastindexof-start-clamped", ["C17"], VM,
 M("c03-replacer-gets-raw-captures", ["C03"], VM,
   "            captures = [UNDEFINED if g is None else g for g in groups]\n", "            captures = list(groups)\n",
   [("C03", "C03-R7", "match_result")], note="the replacer function receives None for a group that did not participate (the slip of seeds C03-b and C03-d)")
+M("c13-escape-digits-by-host-int", ["C13"], "src/microjs/lexer.py",
+  "    for ch in digits:\n        if ch not in \"0123456789abcdefABCDEF\":\n            return None\n", "",
+  [("C13", "C13-R11", "_hex_code_point")], note="fix a4f92c0 reverted: int() decides what hex digits are")
+M("c10-regex-escape-digits-by-host-int", ["C10"], "src/microjs/regex/parser.py",
+  "            for ch in hex_digits:\n                if ch not in \"0123456789abcdefABCDEF\":\n                    raise RegExpError(f\"Invalid unicode escape: {hex_digits}\")\n", "",
+  [("C10", "C10-R9", "_parse_unicode_escape")], note="fix 729fe71 reverted")
+M("c04-top-level-parse-recursion-unconverted", ["C04", "C14"], CX,
+  "        except RecursionError:\n            raise JSSyntaxError(\"Program is nested too deeply\")\n", "        except ZeroDivisionError:\n            raise JSSyntaxError(\"Program is nested too deeply\")\n",
+  [("C04", "C04-R10", "_compile_source"), ("C14", "C14-R4", "_compile_source")], note="fix 3bbbfc1 reverted: RecursionError leaves eval")
+M("c01-parser-without-deadline", ["C01"], CX,
+  "            ast = Parser(source, poll).parse()\n", "            ast = Parser(source).parse()\n",
+  [("C01", "C01-R10", "_compile_source")], note="fix 3bbbfc1 reverted: the parse is outside the time limit")
+M("c01-lexer-poll-dropped", ["C01"], "src/microjs/lexer.py",
+  "            if self._poll():\n                raise TimeLimitError(\"Execution timeout\")\n", "            pass\n",
+  [("C01", "C01-R10", "next_token")], note="the lexer no longer asks the deadline")
+
+# ---- wave 8 ---------------------------------------------------------------------------------------------
+S("seed-C15-e", ["C15"], "seeded/C15-e/patch.diff", [("C15", "C15-R1", "_compile_arrow_function")], note="var hoisting in block-bodied arrows fills the slot table from a set difference, unsorted")
+TP("t-arrow-var-hoisting", ALL_PROPS, "selftest/patches/t-arrow-var-hoisting.diff", note="the same hoisting with the names sorted (repaired C15-e)")
+S("seed-C06-d", ["C06"], "seeded/C06-d/patch.diff", [("C06", "C06-R4b", "identity-answers-true")], note="identity fast path in ===; NaN is one host object and not equal to itself")
+TP("t-strict-equals-identity-fast-path", ALL_PROPS, "selftest/patches/t-strict-equals-identity-fast-path.diff", note="the same fast path with NaN excluded (repaired C06-d)")
+S("seed-C11-d", ["C11"], "seeded/C11-d/patch.diff", [("C11", "C11-R8", "_to_python")], note="flat-array fast path returns between the push on the path and the try/finally that pops")
+TP("t-flat-array-fast-path", ALL_PROPS, "selftest/patches/t-flat-array-fast-path.diff", note="the same fast path inside the try (repaired C11-d)")
+S("seed-C04-d", ["C04"], "seeded/C04-d/patch.diff", [("C04", "C04-R11", "toPrecision")], note="toPrecision's zero branch moved above the range check of the precision it repeats a string by")
+TP("t-toprecision-nonfinite-first", ALL_PROPS, "selftest/patches/t-toprecision-nonfinite-first.diff", note="NaN and the infinities answered before the range check, zero after it (repaired C04-d)")
+M("c04-array-length-assignment-unbounded", ["C04"], VM,
+  "                    or new_len != int(new_len)\n                    or new_len > MAX_ARRAY_LENGTH\n", "                    or new_len != int(new_len)\n",
+  [("C04", "C04-R11", "length")], note="fix e7f3d77 reverted: a.length = 1e9 allocates")
+S("seed-C16-d", ["C16"], "seeded/C16-d/patch.diff", [("C16", "C16-R9", "split:limit")], note="split applies the limit per separator kind; the undefined-separator branch forgets it", silent=("C20",))
+TP("t-split-limit-early", ALL_PROPS, "selftest/patches/t-split-limit-early.diff", note="the same early-stopping split with the limit applied in every branch (repaired C16-d)")
+M("c17-typed-set-offset-ignored-when-empty", ["C17"], VM,
+  "            if offset < 0 or offset + count > arr.length:\n                raise JSRangeError(\"offset is out of bounds\")\n\n", "",
+  [("C17", "C17-R20", "set_fn:offset")], note="fix 8c86225 reverted: the offset is not looked at for an empty source")
+S("seed-C14-d", ["C14"], "seeded/C14-d/patch.diff", [("C14", "C14-R1", "_patch_jump|_emit")], note="jump range checks replaced by a length check when a unit is finished; arrow functions are finished without it")
+TP("t-bytecode-length-checked-at-finish", ALL_PROPS, "selftest/patches/t-bytecode-length-checked-at-finish.diff", note="the same length check at all three places that finish a unit (repaired C14-d)")
+S("seed-C18-d", ["C18"], "seeded/C18-d/patch.diff", [("C18", "C18-R12", "_RADIX_LITERAL")], note="to_number strips the sign before it decides the kind of literal: signed radix literals are accepted")
+TP("t-to-number-sign-first", ALL_PROPS, "selftest/patches/t-to-number-sign-first.diff", note="the same sign-first conversion with the radix literal tested on the unsigned-by-grammar text first (repaired C18-d)")
+M("c18-minus-zero-text-through-int", ["C18"], VA,
+  "        if n == 0 and s.startswith(\"-\"):\n            return -0.0  # \"-0\": a host int has no negative zero\n", "",
+  [("C18", "C18-R12", "negative-zero")], note="fix 3476877 reverted in to_number")
